@@ -66,7 +66,7 @@ def cc_obj(cc):
 class CountingSource:
     """Byte iterable that logs every pull.  ``kind`` selects the concrete iterable handed to the decoder."""
 
-    KINDS = ("counting", "bytes", "bytearray", "list", "tuple", "iter", "generator", "memoryview", "array", "deque")
+    KINDS = ("counting", "bytes", "bytearray", "list", "tuple", "iter", "generator", "memoryview", "array", "deque", "files", "closing")
 
     def __init__(self, data, log=None):
         self.data = bytes(data)
@@ -110,7 +110,39 @@ def make_source(data, kind):
         return array.array("B", data)
     if kind == "deque":
         return collections.deque(data)
+    if kind == "files":
+        # what the command line hands over: a generator over file objects
+        import io
+
+        from tpmstream.io import bytes_from_files
+
+        class MemFile(io.BytesIO):
+            mode = "rb"
+
+        cut = len(data) // 2
+        return bytes_from_files([MemFile(data[:cut]), MemFile(data[cut:])])
+    if kind == "closing":
+        return ClosingSource(data)
     raise ValueError(kind)
+
+
+class ClosingSource:
+    """Iterator with a close() method (like a generator or a file): after close() it yields nothing more."""
+
+    def __init__(self, data):
+        self.it = iter(bytes(data))
+        self.closed = False
+
+    def __iter__(self):
+        return self
+
+    def __next__(self):
+        if self.closed:
+            raise StopIteration
+        return next(self.it)
+
+    def close(self):
+        self.closed = True
 
 
 class Ev:
@@ -193,6 +225,7 @@ class Trace:
         self.steps = 0
         self.capped = False
         self.data = b""
+        self.unstable = None  # set when an error attribute changed between two reads
 
     @property
     def mevents(self):
@@ -292,7 +325,13 @@ def run(tpm_type, data, strict=True, cc=None, enc=None, source_kind="counting", 
         t.outcome = ("depleted", None if e.command_code is None else int(e.command_code))
     except InputStreamSuperfluousBytesError as e:
         t.exc = e
-        t.outcome = ("superfluous", bytes(e.bytes_remaining), None if e.command_code is None else int(e.command_code))
+        # the error *carries* the surplus bytes: looking at it (formatting it, reading the attribute) must not use them up
+        first = bytes(e.bytes_remaining)
+        str(e)
+        second = bytes(e.bytes_remaining)
+        t.outcome = ("superfluous", second, None if e.command_code is None else int(e.command_code))
+        if first != second:
+            t.unstable = f"bytes_remaining was {first.hex()} on the first read and {second.hex()!r} after str(error)"
     except ConstraintViolatedError as e:
         t.exc = e
         t.outcome = ("constraint", snap_error(e))
